@@ -45,12 +45,16 @@ RULE = ('event sequences over 3 files x 3 policy names (+ reserved names): '
 PROBES = ['shadowed_name', 'restored_after_removal', 'undefined_by_edit',
           'invalid_file_rejected', 'reserved_name_in_file', 'torn_write',
           'vanish_race', 'mtime_tie', 'monitor_restart', 'live_mode',
-          'same_scan_conflict', 'empty_policy']
+          'same_scan_conflict', 'empty_policy', 'server_front_end',
+          'in_force_probes']
 REAL_VS_STUB = {
     'real': ['PolicyDirectoryMonitor.scan_policies / run / '
              'initialize_tracking_structures / restore_or_delete_policy',
              'core.policy.read_policy_from_file / parse_policy',
              'real files, real os.listdir / getmtime / open'],
+    'real (every 6th random plan)': [
+        'KmipServer.start(): Manager dict + monitor + engine wiring, '
+        'KmipEngine access decisions on the shared store'],
     'stub': ['multiprocessing.Manager().dict() -> plain dict (same per-key '
              'atomicity under baton passing)', 'time.sleep / time.time -> '
              'simulated clock', 'process start (run() is called in a '
@@ -258,8 +262,14 @@ def generate(rng, tier, index):
     if mode == 'live':
         events = [e for e in events if e['ev'] not in (
             'scan', 'monitor_restart') and not e.get('fault')]
-    return {'mode': mode, 'events': events, 'seed': r.randrange(1 << 30),
+    plan = {'mode': mode, 'events': events, 'seed': r.randrange(1 << 30),
             'sweep': False}
+    if mode == 'step' and index % 6 == 5:
+        # the monitor, the shared store and the engine as the real
+        # KmipServer wires them together (live_policies on); "in force" is
+        # then also observed through the engine's decisions
+        plan['server'] = True
+    return plan
 
 
 # ---------------------------------------------------------------------------
@@ -363,6 +373,27 @@ def execute(plan):
     mon.os = fos
     builtin = copy.deepcopy(core_policy.policies)
     store = ProxyDict(copy.deepcopy(core_policy.policies))
+    W = None
+    if plan.get('server'):
+        from sim import serverworld
+        probes['server_front_end'] += 1
+        W = serverworld.ServerWorld(
+            [{'cn': 'alice'}, {'cn': 'bob'}], None, seed=plan['seed'],
+            server_opts={'live': True})
+        clock = kernel.TIME.clock
+        shutil.rmtree(root, ignore_errors=True)
+        root = W.policy_dir
+        store = W.policies
+        # one object per policy name, owned by alice
+        from sim import gen
+        for nm in NAMES:
+            W.request({'actor': 0, 'ver': [1, 2], 'items': [{
+                'op': 'Register', 'label': 'obj-' + nm,
+                'otype': 'SymmetricKey',
+                'attrs': [gen.A('Cryptographic Usage Mask', 12),
+                          gen.A('Operation Policy Name', nm)],
+                'obj': {'kft': 1, 'value': '33' * 16, 'alg': 3,
+                        'len': 128}}]})
     M = Model(None)
     trace = []
     mtimes = {}
@@ -445,7 +476,11 @@ def execute(plan):
     import signal
     saved_handlers = (signal.getsignal(signal.SIGINT),
                       signal.getsignal(signal.SIGTERM))
-    monitor = mon.PolicyDirectoryMonitor(root, store, live_monitoring=True)
+    if W is not None:
+        monitor = W.monitor
+    else:
+        monitor = mon.PolicyDirectoryMonitor(root, store,
+                                             live_monitoring=True)
     scan_no = [0]
     prev_owners = {}
     seen_mtime = {}   # file -> mtime the monitor has consumed
@@ -507,7 +542,38 @@ def execute(plan):
                     probes['undefined_by_edit'] += 1
         prev_owners.clear()
         prev_owners.update(owners)
+        if W is not None:
+            check_in_force(exp, why)
         return any(len(v) > 1 for v in owners.values())
+
+    def check_in_force(exp, why):
+        """The engine must decide as the definition in force says: Get of
+        alice's key under policy <name> by alice (owner) and by bob."""
+        for nm in NAMES:
+            defs = exp.get(nm)
+            want = None
+            if defs is None:
+                want = (False, False)
+            elif len(set(defs)) == 1:
+                d = json.loads(defs[0])
+                perm = ((d.get('preset') or {}).get('SYMMETRIC_KEY')
+                        or {}).get('GET')
+                want = (perm in ('ALLOW_ALL', 'ALLOW_OWNER'),
+                        perm == 'ALLOW_ALL')
+            if want is None:
+                continue
+            for ai in (0, 1):
+                resp = W.request({'actor': ai, 'ver': [1, 2], 'items': [
+                    {'op': 'Get', 'uid': '@obj-' + nm}]}, record=False)
+                probes['in_force_probes'] += 1
+                ok = resp is not None and resp.items and \
+                    resp.items[0]['status'] == 0
+                if ok != want[ai]:
+                    flag('engine-decides-by-another-definition-than-the-'
+                         'one-in-force', why=why, name=nm,
+                         requester=['owner', 'other'][ai], granted=ok,
+                         definition_in_force=None if defs is None
+                         else defs[0][:300])
 
     try:
         shadow = False
@@ -559,8 +625,15 @@ def execute(plan):
                 elif k == 'monitor_restart':
                     faults['monitor_restart'] += 1
                     probes['monitor_restart'] += 1
-                    monitor = mon.PolicyDirectoryMonitor(
-                        root, store, live_monitoring=True)
+                    if W is not None:
+                        # a whole server restart: new store, new monitor,
+                        # new engine on the same database and directory
+                        W.restart()
+                        store = W.policies
+                        monitor = W.monitor
+                    else:
+                        monitor = mon.PolicyDirectoryMonitor(
+                            root, store, live_monitoring=True)
                     M.loads.clear()
                     seen_mtime.clear()
                 elif k == 'scan':
@@ -648,6 +721,8 @@ def execute(plan):
         signal.signal(signal.SIGTERM, saved_handlers[1])
         mon.os = real_os
         kernel.TIME.clock.sleeper = None
+        if W is not None:
+            W.close()
         shutil.rmtree(root, ignore_errors=True)
 
 
